@@ -65,8 +65,13 @@ def make_config(seed, tier="quick"):
     if r.random() < 0.15 and law not in ("answer_wrong",):
         # an unsolicited Heartbeat carrying a TestReqID nobody asked for, while nothing is outstanding
         plan.append((round(r.uniform(0, 0.5) * hb, 3), "hb_id", "777"))
+    if r.random() < 0.2:
+        # the application itself asks for a TestRequest now and then (public send_test_req)
+        for _ in range(r.randint(1, 2)):
+            plan.append((round(r.uniform(0, span), 3), "app_testreq", None))
     plan.sort()
     return dict(
+        early_app_testreq=r.random() < 0.15,
         seed=seed,
         eut_role=r.choice(["acceptor", "initiator"]),
         hb=hb,
@@ -137,6 +142,9 @@ class WatchdogSim(PeerSim):
     # ---------------------------------------------------------- observations
     def ep_event(self, ep, kind, *args):
         now = self.loop.time()
+        if kind == "on_connect" and self.cfg.get("early_app_testreq") and self.t0 is None:
+            # an over-eager application: TestRequest before the Logon exchange (refused by the library)
+            self.spawn(self.app_testreq("early"), "app-testreq-early")
         if kind == "state":
             st = args[0]
             if st == ACTIVE and self.t0 is None:
@@ -162,6 +170,15 @@ class WatchdogSim(PeerSim):
             p.send("D", [("11", f"P-{self.app_id}"), ("55", "ES"), ("54", "1"), ("38", "1"), ("44", "1")], spec={"plan": "app"})
         elif kind == "testreq":
             p.send("1", [("112", arg)], spec={"plan": "testreq", "id": arg})
+        elif kind == "app_testreq":
+            self.spawn(self.app_testreq("plan"), "app-testreq")
+
+    async def app_testreq(self, why):
+        try:
+            await self.eut.send_test_req()
+            self.probe("app_send_test_req_accepted")
+        except Exception as e:
+            self.probe("app_send_test_req_refused_" + type(e).__name__)
 
     def on_peer_frame(self, d, fr):
         """The peer received a frame from the EUT."""
@@ -278,8 +295,13 @@ class WatchdogSim(PeerSim):
             gaps = [full[i + 1] - full[i] for i in range(len(full) - 1)] + [first_disc - full[-1]]
             gaps_ok = max(gaps) <= I - 2 + 1e-9
             all_treq = [(t, rid) for (t, typ, rid, seq) in self.eut_tx if typ == "1" and t <= first_disc]
-            answers_ok = bool(all_treq) and all(
+            every_answered = all(
                 answered.get((t, rid), float("inf")) - t <= 2 * I - 2 + 1e-9 for (t, rid) in all_treq)
+            answers_ok = bool(all_treq) and every_answered
+            # a TestRequest the application itself asked for (public send_test_req) and that the peer
+            # ignores entitles the endpoint to drop the session even though other traffic flows: the
+            # "keeps sending valid traffic" band is applied only when no TestRequest went unanswered
+            gaps_ok = gaps_ok and every_answered
             if gaps_ok or answers_ok:
                 why = "traffic gaps <= interval-2s" if gaps_ok else "every TestRequest answered within 2*interval-2s"
                 raise Violation("live-peer-disconnected", f"C12/live-peer-disconnected/{ctx}",
